@@ -1,4 +1,6 @@
 ENGINES = [
+    {"name": "R", "path": "vlib/renv.py", "serves_properties": ["C04", "C10", "C14", "C20", "C11", "C18"],
+     "kind_free_text": "real gunicorn master + workers started from the working tree through vlib/rfiles/launcher.py, raw-socket clients, gate-file test application, /proc and file-system observation"},
     {"name": "T", "path": "vlib/tsim.py", "serves_properties": ["C13"],
      "kind_free_text": "real ThreadWorker.run()/accept/finish_request/murder_keepalived/handle with scripted selector, listener, sockets, executor and virtual time (gunicorn.workers.gthread.time/futures replaced)"},
     {"name": "K", "path": "vlib/ksim.py", "serves_properties": ["C03", "C11"],
@@ -116,4 +118,11 @@ CHECKS = [
              "no close while a handler is pending, keep-alive expiry at the first scan after the deadline and never before, ready connections "
              "dispatched within 3 iterations when a thread is free, everything closed and nr_conns == 0 when clients are gone.",
      "note": "handlers run atomically at yield points; bytecode-level races between pool threads and the loop are not simulated; three open findings are excluded by signature"},
+    {"id": "C04", "engine": "R",
+     "technique": "enumerated fault/phase matrix with seeded timing jitter on real master+worker processes (exhaustive matrix in thorough, seeded slice in quick); independent response reader, /proc and file-system oracles",
+     "text": "Every cell worker class x connection phase at signal time x application behaviour x signal x bind starts a real gunicorn from the working "
+             "tree, brings one client connection into the phase, sends the signal and checks: complete response for requests a worker had started "
+             "reading (TERM, application finishing in time), master exit status 0 in time, no surviving process in the master's session, listener "
+             "closed, pid file and unix socket file removed.",
+     "note": "wall-clock bounds with 4 s slack; the harness owns the phase, not the instruction at which the signal lands; inconclusive cells (server not ready) are counted, not alarmed"},
 ]
